@@ -92,6 +92,35 @@ def replay_population(col, item):
         tree.remove()
 
 
+def single_file(col, _):
+    import shutil
+    import tempfile
+    from typhon.files import FileSet
+    root = tempfile.mkdtemp(prefix="verif-fs1-")
+    try:
+        path = os.path.join(root, "the_only_file.dat")
+        with open(path, "wb") as f:
+            f.write(b"7")
+        emb = EMBEDDINGS["yearend6h"]
+        for cov in (None, (emb.t(2), emb.t(5))):
+            fs = FileSet(path, time_coverage=cov, handler=PickleHandler())
+            for h in (0, 5, 11, 40):
+                for flt in (None, {"!tag": "A"}):
+                    try:
+                        r = fs.find_closest(emb.half(h), filters=flt)
+                        got = getattr(r, "path", r)
+                        data = fs[emb.half(h)]
+                    except Exception as ex:
+                        col.violation("single-file-closest-raises-" + type(ex).__name__, {"abstract": {"half_tick": h}, "observed": repr(ex)[:200]})
+                        continue
+                    col.count(1)
+                    if os.path.abspath(got) != os.path.abspath(path) or data != 7:
+                        col.violation("single-file-closest-wrong", {"abstract": {"half_tick": h, "coverage": str(cov)}, "observed": [got, data]})
+        col.nontrivial.add("single-file")
+    finally:
+        shutil.rmtree(root, ignore_errors=True)
+
+
 def record_session(rng, tid, emb_name, layout, nfiles, T):
     emb = EMBEDDINGS[emb_name]
     R = radius(emb, layout)
@@ -170,6 +199,7 @@ def run(ctx):
                     continue
                 items.append((c, emb_name, layout, c01.pick_style(c01.styles_for(c, emb_name), layout, n + k), R))
     pmap(ctx, replay_population, items)
+    pmap(ctx, single_file, [0], procs=1)
     ctx.traces += len(items)
     ctx.sample({"population": items[0][0]["F"], "admissible_by_half_tick": items[0][0]["close"][:6],
                 "replayed_as": list(items[0][1:5])})
